@@ -152,7 +152,13 @@ pub fn ber_exp_with_s(x: f64, ccs: f64, s: u64, bytes: &[u8]) -> Ber {
         }
     }
     if bytes.len() == 8 {
-        Ber::Reject // w = 0 after the last byte
+        return Ber::Reject; // w = 0 after the last byte
+    }
+    // the bytes the specification would go on to draw are compared with the rest of z: when
+    // that rest is zero no byte is below it, so every continuation ends in "reject"
+    let rest_bits = 64 - 8 * bytes.len() as u32;
+    if z & ((1u64 << rest_bits) - 1) == 0 {
+        Ber::Reject
     } else {
         Ber::Undetermined
     }
@@ -189,6 +195,20 @@ pub struct Trace {
     /// some Bernoulli trial along the way was ambiguous (two legitimate values of s disagree,
     /// or all supplied bytes tied)
     pub ambiguous: bool,
+}
+
+/// (x, ccs) of the Bernoulli trial in the first iteration of Algorithm 15, given the bytes that
+/// iteration draws for the base sampler and the sign.
+pub fn first_trial(mu: f64, sigma: f64, sigma_min: f64, nine: &[u8; 9], sign_byte: u8) -> (f64, f64) {
+    let inv_2sigma_max_sq = 1.0 / (2.0 * SIGMA_MAX * SIGMA_MAX);
+    let isigma = 1.0 / sigma;
+    let dss = 0.5 * isigma * isigma;
+    let r = mu - mu.floor();
+    let z0 = base_sampler_u(u72_from_bytes(nine));
+    let b = (sign_byte & 1) as i64;
+    let z = b + (2 * b - 1) * z0;
+    let zr = z as f64 - r;
+    (zr * zr * dss - ((z0 * z0) as f64) * inv_2sigma_max_sq, sigma_min * isigma)
 }
 
 /// Algorithm 15, consuming bytes in the order the implementation documents: 9 for the base
